@@ -12,15 +12,23 @@ import (
 
 // idxcRun: index.AsCollection() of a multi-key index (the outs of the objects) over a static collection,
 // and a derived collection grouped by it (Lean: MiscDriver.lean, stepIdxc).
+// tagKey: an index key that is not a string (krt turns it into one through fmt.Stringer; index.AsCollection
+// needs WithIndexCollectionFromString to get back).
+type tagKey struct{ s string }
+
+func (t tagKey) String() string { return t.s }
+
 type idxcRun struct {
 	stop chan struct{}
 	prim krt.StaticCollection[Obj]
-	ic   krt.IndexCollection[string, Obj]
+	ic   krt.IndexCollection[tagKey, Obj]
 	g    krt.Collection[Out]
 	// the same grouping, from a fixed set of tags through krt.FetchIndexObjects (a FetchOne by key on the index
 	// collection): must hold what `g` holds
 	h    krt.Collection[Out]
 	subs map[string]*subscriber
+	// handlers on the index collection itself (only "nothing after UnregisterHandler" is judged)
+	icsubs map[string]*subscriber
 }
 
 func (r *idxcRun) fetchedGroupsAgree() bool {
@@ -29,7 +37,7 @@ func (r *idxcRun) fetchedGroupsAgree() bool {
 }
 
 func newIdxcRun() runner {
-	r := &idxcRun{stop: make(chan struct{}), subs: map[string]*subscriber{}}
+	r := &idxcRun{stop: make(chan struct{}), subs: map[string]*subscriber{}, icsubs: map[string]*subscriber{}}
 	r.prim = krt.NewStaticCollection[Obj](nil, nil, krt.WithStop(r.stop), krt.WithName("prim"))
 	return r
 }
@@ -52,10 +60,17 @@ func (r *idxcRun) start() {
 	if r.g != nil {
 		return
 	}
-	idx := krt.NewIndex[string, Obj](r.prim, "tags", func(o Obj) []string { return o.Outs })
-	r.ic = idx.AsCollection(krt.WithStop(r.stop), krt.WithName("tags"))
-	r.g = krt.NewCollection[krt.IndexObject[string, Obj], Out](r.ic, func(ctx krt.HandlerContext, io krt.IndexObject[string, Obj]) *Out {
-		return &Out{Key: io.Key, Val: renderGroup(io.Objects)}
+	idx := krt.NewIndex[tagKey, Obj](r.prim, "tags", func(o Obj) []tagKey {
+		ks := make([]tagKey, len(o.Outs))
+		for i, k := range o.Outs {
+			ks[i] = tagKey{k}
+		}
+		return ks
+	})
+	r.ic = idx.AsCollection(krt.WithStop(r.stop), krt.WithName("tags"),
+		krt.WithIndexCollectionFromString(func(s string) tagKey { return tagKey{s} }))
+	r.g = krt.NewCollection[krt.IndexObject[tagKey, Obj], Out](r.ic, func(ctx krt.HandlerContext, io krt.IndexObject[tagKey, Obj]) *Out {
+		return &Out{Key: io.Key.s, Val: renderGroup(io.Objects)}
 	}, krt.WithStop(r.stop), krt.WithName("grouped"))
 	var tags []Out
 	for _, k := range outKeys {
@@ -63,7 +78,7 @@ func (r *idxcRun) start() {
 	}
 	tagC := krt.NewStaticCollection[Out](nil, tags, krt.WithStop(r.stop), krt.WithName("tagnames"))
 	r.h = krt.NewCollection[Out, Out](tagC, func(ctx krt.HandlerContext, t Out) *Out {
-		objs := krt.FetchIndexObjects[string, Obj](ctx, r.ic, t.Key)
+		objs := krt.FetchIndexObjects[tagKey, Obj](ctx, r.ic, tagKey{t.Key})
 		if len(objs) == 0 {
 			return nil
 		}
@@ -93,6 +108,20 @@ func (r *idxcRun) step(toks []string) (string, string) {
 	case toks[0] == "sync" && len(toks) == 1:
 		synctest.Wait()
 		return "ok", line
+	case toks[0] == "icsub" && len(toks) == 2:
+		if r.g != nil {
+			s := &subscriber{}
+			r.icsubs[toks[1]] = s
+			s.reg = r.ic.RegisterBatch(func(es []krt.Event[krt.IndexObject[tagKey, Obj]]) {
+				for range es {
+					s.add("e")
+				}
+			}, true)
+		}
+		return "ok", line
+	case toks[0] == "icunsub" && len(toks) == 2:
+		r.icsubs[toks[1]].unregister()
+		return "ok", line
 	case toks[0] == "sub" && len(toks) == 3:
 		if r.g == nil {
 			return "ok", line
@@ -121,9 +150,14 @@ func (r *idxcRun) step(toks []string) (string, string) {
 		}
 		return "list " + showEntries(r.g.List(), all), line
 	case toks[0] == "ilist" && len(toks) == 1:
+		for _, s := range r.icsubs {
+			if h := s.health(); h != "" {
+				return "ilist " + h, line
+			}
+		}
 		var outs []Out
 		for _, io := range r.ic.List() {
-			outs = append(outs, Out{Key: io.Key, Val: renderGroup(io.Objects)})
+			outs = append(outs, Out{Key: io.Key.s, Val: renderGroup(io.Objects)})
 		}
 		return "ilist " + showEntries(outs, all), line
 	case toks[0] == "get" && len(toks) == 2:
@@ -137,7 +171,7 @@ func (r *idxcRun) step(toks []string) (string, string) {
 		if io == nil {
 			return "iget none", line
 		}
-		if io.Key != toks[1] {
+		if io.Key.s != toks[1] {
 			return "iget wrong-key", line
 		}
 		return "iget " + renderGroup(io.Objects), line
@@ -164,6 +198,7 @@ func genIdxcCase(r *wire.Rng, n int, w *wire.Out) {
 		set()
 	}
 	w.Line("start")
+	nic, nicun := 0, 0
 	queries := func() {
 		w.Line("list")
 		w.Line("ilist")
@@ -220,6 +255,14 @@ func genIdxcCase(r *wire.Rng, n int, w *wire.Out) {
 			name := fmt.Sprintf("s%d", len(subs)+1)
 			subs = append(subs, name)
 			w.Line("sub", name, wire.Pick(r, []string{"single", "batch", "batch", "nostate"}))
+		case x < 95:
+			if nic > nicun && r.Chance(50, 100) {
+				nicun++
+				w.Line("icunsub", fmt.Sprintf("c%d", nicun))
+			} else {
+				nic++
+				w.Line("icsub", fmt.Sprintf("c%d", nic))
+			}
 		default:
 			queries()
 		}
